@@ -190,6 +190,13 @@ def lossy_conversion(init, st: ast.Assign) -> Optional[str]:
         for b in ast.walk(node):
             if isinstance(b, ast.BinOp) and isinstance(b.op, (ast.Mod, ast.FloorDiv)):
                 return f"`{norm_key(b, 70)}` changes the value given"
+            # `x or default` / `x if x else default`: every falsy value (0, 0.0, an empty sequence, False) is replaced, not only None
+            if isinstance(b, ast.BoolOp) and isinstance(b.op, ast.Or) and isinstance(b.values[0], ast.Name) and b.values[0].id in init.params \
+                    and not (isinstance(b.values[-1], (ast.Dict, ast.List, ast.Tuple, ast.Set)) and not getattr(b.values[-1], "elts", getattr(b.values[-1], "keys", None))):
+                return f"`{norm_key(b, 70)}` replaces a given value of 0 / False / empty by `{unparse(b.values[-1])}`"
+            if isinstance(b, ast.IfExp) and isinstance(b.test, ast.Name) and b.test.id in init.params and isinstance(b.body, ast.Name) and b.body.id == b.test.id \
+                    and not (isinstance(b.orelse, (ast.Dict, ast.List, ast.Tuple, ast.Set)) and not getattr(b.orelse, "elts", getattr(b.orelse, "keys", None))):
+                return f"`{norm_key(b, 70)}` replaces a given value of 0 / False / empty by `{unparse(b.orelse)}`"
     return None
 
 
